@@ -7,6 +7,7 @@ package compression
 // C15. The compression middleware returns exactly what it was given (ghost scenario on the real middleware over an
 // in-memory store; bounded random search - the codecs are third-party stream compressors, outside the modelled subset).
 //@ func verifCompressionRoundTrip
+//@ property C01 C15
 //@ mode nosafety
 //@ bounded 1500
 //@ ensures[C15:compressed-part-reads-back-exactly] result
